@@ -59,10 +59,33 @@ func c08Misrouted(owner string) bool {
 	return hit
 }
 
+// c08Addrs holds every address a harness server had in this process. The
+// redis package caches one go-redis client per address for ever; a server that
+// got the port of an earlier, closed one would inherit a pool of dead
+// connections (spurious fallbacks). newC08Srv therefore insists on a new address.
+var c08Addrs sync.Map
+
 func newC08Srv(owner string) (*c08Srv, error) {
-	mr, err := miniredis.Run()
-	if err != nil {
-		return nil, err
+	var held []*miniredis.Miniredis
+	defer func() {
+		for _, h := range held {
+			h.Close()
+		}
+	}()
+	var mr *miniredis.Miniredis
+	for try := 0; ; try++ {
+		x, err := miniredis.Run()
+		if err != nil {
+			return nil, err
+		}
+		if _, seen := c08Addrs.LoadOrStore(x.Addr(), true); !seen {
+			mr = x
+			break
+		}
+		held = append(held, x) // keep the port busy until a fresh one is found
+		if try > 50 {
+			return nil, fmt.Errorf("no unused port after %d tries", try)
+		}
 	}
 	s := &c08Srv{mr: mr, owner: owner}
 	s.install()
@@ -430,6 +453,272 @@ func TestVerifC08TokenSeq(t *testing.T) {
 		}()
 	}
 	wg.Wait()
+}
+
+// ---------------------------------------------------------------------------
+// sustained over-quota traffic on a healthy server: after the bucket is drained
+// hundreds of consecutive requests arrive within the same caller second(s);
+// every one of them must be denied. Redis is never down in this test, so an
+// answer given without a script execution is still an answer of "the" bucket:
+// a grant the reference bucket cannot cover is over-admission whoever gave it.
+
+type c08SScenario struct {
+	Rate   int64      `json:"rate"`
+	Burst  int64      `json:"burst"`
+	Lims   int        `json:"limiters_on_one_key"`
+	Shared bool       `json:"shared_store"`
+	Base   int64      `json:"base_unix"`
+	Steps  []c08TStep `json:"steps"`
+}
+
+func c08GenSustained(r *rand.Rand, calls int) c08SScenario {
+	rate := int64(1 + r.Intn(8))
+	burst := (rate+1)/2 + int64(r.Intn(10))
+	sc := c08SScenario{Rate: rate, Burst: burst, Lims: 1 + r.Intn(3), Shared: r.Intn(3) > 0, Base: 1_600_000_000 + int64(r.Intn(100_000_000))}
+	// drain: a few random requests, then whatever is left is taken by n=1 calls below
+	sc.Steps = append(sc.Steps, c08TStep{L: r.Intn(sc.Lims), N: 1 + r.Int63n(burst)})
+	for i := 0; i < calls; i++ {
+		st := c08TStep{L: r.Intn(sc.Lims), N: 1}
+		switch x := r.Intn(100); {
+		case x < 12:
+			st.N = int64(2 + r.Intn(3))
+		case x < 16:
+			st.N = burst
+		case x < 19:
+			st.N = burst + 1
+		}
+		// the caller clock stands still except for a rare single second
+		if i > 0 && r.Intn(140) == 0 {
+			st.Adv = 1000
+		}
+		sc.Steps = append(sc.Steps, st)
+	}
+	return sc
+}
+
+// c08FastCall is the longest wall time of a call that is still judged when it
+// executed no script: go-redis gives up on a stalled connection only after 3 s.
+const c08FastCall = time.Second
+
+func runC08Sustained(m *vk.M, idx int, sc c08SScenario) {
+	desc := fmt.Sprintf("case=%d;%s", idx, vk.JSON(sc))
+	key := fmt.Sprintf("c08u%d", idx)
+	srv, err := newC08Srv("{" + key + "}")
+	if err != nil {
+		m.Inconclusive("miniredis: %v", err)
+		return
+	}
+	defer srv.mr.Close()
+	store := redis.New(srv.mr.Addr())
+	lims := make([]*TokenLimiter, sc.Lims)
+	for i := range lims {
+		st := store
+		if !sc.Shared && i > 0 {
+			st = redis.New(srv.mr.Addr())
+		}
+		lims[i] = NewTokenLimiter(int(sc.Rate), int(sc.Burst), st, key)
+	}
+	ref := &c08Bucket{rate: sc.Rate, burst: sc.Burst}
+	clock := time.Unix(sc.Base, 0)
+	var adm []c08Adm
+	grants, denies, run, maxRun := 0, 0, 0, 0
+	for si, st := range sc.Steps {
+		if st.Adv > 0 {
+			d := time.Duration(st.Adv) * time.Millisecond
+			clock = clock.Add(d)
+			srv.mr.FastForward(d)
+		}
+		sec := clock.Unix()
+		class := c08Class(ref, sec, st.N)
+		e0 := srv.evals.Load()
+		t0 := time.Now()
+		got := lims[st.L].AllowN(clock, int(st.N))
+		wall := time.Since(t0)
+		e := srv.evals.Load() - e0
+		m.Count("sustained.allowN", 1)
+		ref.refill(sec)
+		avail := ref.tokens
+		if e != 1 {
+			if e == 0 && wall < c08FastCall && !c08Misrouted(key) && got && st.N > avail {
+				m.Violate("C08:token:sustained:granted-over-quota-without-redis-command", desc,
+					"step %d (rate %d, burst %d, %d limiters on one key): AllowN(sec=%d, n=%d) was granted in %v without any script execution although the server is up and was never down; the bucket holds %d tokens at that second; %d grants and %d denials so far, the last %d calls in a row denied",
+					si, sc.Rate, sc.Burst, sc.Lims, sec, st.N, wall.Round(time.Microsecond), avail, grants, denies, run)
+				return
+			}
+			m.Count(fmt.Sprintf("sustained.abandoned-evals=%d", e), 1)
+			m.Note("case %d step %d: AllowN caused %d EVALs in %v on a healthy server (granted=%v, bucket %d, n=%d); scenario abandoned", idx, si, e, wall, got, avail, st.N)
+			return
+		}
+		want := ref.take(sec, st.N)
+		if got {
+			grants++
+			run = 0
+			adm = append(adm, c08Adm{sec: sec, n: st.N})
+		} else {
+			denies++
+			run++
+			if run > maxRun {
+				maxRun = run
+			}
+		}
+		if got != want {
+			m.Violate(fmt.Sprintf("C08:token:sustained:want-%s-got-%s:%s", c08GD(want), c08GD(got), class), desc,
+				"step %d (rate %d, burst %d, %d limiters on one key): AllowN(sec=%d, n=%d) = %v; reference bucket holds %d tokens at that second, expected %v; %d denials in a row before",
+				si, sc.Rate, sc.Burst, sc.Lims, sec, st.N, got, avail, want, run)
+			return
+		}
+	}
+	if bad, a, b, sum, bound := c08WindowBound(adm, sc.Rate, sc.Burst); bad {
+		m.Violate("C08:token:sustained:window-bound", desc, "%d tokens admitted between second %d and second %d, bound burst+rate*t = %d", sum, adm[a].sec, adm[b].sec, bound)
+		return
+	}
+	m.Count("sustained.grant", int64(grants))
+	m.Count("sustained.deny", int64(denies))
+	m.Max("sustained.longest_denial_run", int64(maxRun))
+	m.Case(vk.Digest(sc.Rate, sc.Burst, sc.Lims, sc.Shared, grants, denies, maxRun), maxRun >= 50 && grants > 0)
+	if m.WantSample() {
+		m.Sample(map[string]any{"case": idx, "rate": sc.Rate, "burst": sc.Burst, "limiters_on_one_key": sc.Lims, "shared_store": sc.Shared,
+			"calls": len(sc.Steps), "granted": grants, "denied": denies, "longest_denial_run": maxRun})
+	}
+}
+
+func TestVerifC08TokenSustained(t *testing.T) {
+	m := vk.New(t, "C08", "token limiter, healthy Redis, sustained over-quota traffic: hundreds of consecutive AllowN within the same caller second(s) after the bucket is drained, 1-3 limiters on one key, compared call by call with the reference bucket; a grant without a script execution is judged against the same bucket")
+	defer m.Done()
+	defer c08Wall(m, time.Now())
+	const workers = 4
+	n := vk.N(20, 400)
+	var wg sync.WaitGroup
+	var next atomic.Int64
+	for w := 0; w < workers; w++ {
+		wg.Add(1)
+		go func() {
+			defer wg.Done()
+			for {
+				i := int(next.Add(1)) - 1
+				if i >= n {
+					return
+				}
+				if !m.Only(i) {
+					continue
+				}
+				r := m.Rand("sustained", i)
+				runC08Sustained(m, i, c08GenSustained(r, 200+r.Intn(vk.N(200, 500))))
+				if i%50 == 0 {
+					m.Progress()
+				}
+			}
+		}()
+	}
+	wg.Wait()
+}
+
+// the same under concurrent callers (-race): the tokens granted in one caller
+// second can never exceed what the bucket holds at that second
+func TestVerifC08TokenSustainedRace(t *testing.T) {
+	m := vk.New(t, "C08", "token limiter, healthy Redis, sustained over-quota traffic from 32 concurrent callers (-race): tokens granted per caller second never exceed the reference bucket's level, whoever answered")
+	defer m.Done()
+	defer c08Wall(m, time.Now())
+	const G = 32
+	n := vk.N(2, 40)
+	for i := 0; i < n; i++ {
+		if !m.Only(i) {
+			continue
+		}
+		r := m.Rand("sustained-race", i)
+		rate := int64(1 + r.Intn(6))
+		burst := (rate+1)/2 + int64(r.Intn(6))
+		nl := 1 + r.Intn(2)
+		per := 6 + r.Intn(vk.N(4, 10))
+		desc := fmt.Sprintf("case=%d;{\"rate\":%d,\"burst\":%d,\"limiters_on_one_key\":%d,\"goroutines\":%d,\"calls_each\":%d}", i, rate, burst, nl, G, per)
+		m.Current(desc)
+		key := fmt.Sprintf("c08v%d", i)
+		srv, err := newC08Srv("{" + key + "}")
+		if err != nil {
+			m.Inconclusive("miniredis: %v", err)
+			return
+		}
+		store := redis.New(srv.mr.Addr())
+		lims := make([]*TokenLimiter, nl)
+		for k := range lims {
+			lims[k] = NewTokenLimiter(int(rate), int(burst), store, key)
+		}
+		clock := time.Unix(1_600_000_000+int64(r.Intn(1000000)), 0)
+		level := burst
+		var totalGrant, totalDeny, offRedis int64
+		ok := true
+		for round := 0; round < 3 && ok; round++ {
+			if round > 0 {
+				adv := int64(r.Intn(2))
+				clock = clock.Add(time.Duration(adv) * time.Second)
+				srv.mr.FastForward(time.Duration(adv) * time.Second)
+				level += adv * rate
+				if level > burst {
+					level = burst
+				}
+			}
+			now := clock
+			e0 := srv.evals.Load()
+			var granted, denied, slow atomic.Int64
+			var wg sync.WaitGroup
+			gate := make(chan struct{})
+			for g := 0; g < G; g++ {
+				wg.Add(1)
+				go func(l *TokenLimiter) {
+					defer wg.Done()
+					<-gate
+					for k := 0; k < per; k++ {
+						t0 := time.Now()
+						if l.AllowN(now, 1) {
+							granted.Add(1)
+						} else {
+							denied.Add(1)
+						}
+						if time.Since(t0) >= c08FastCall {
+							slow.Add(1)
+						}
+					}
+				}(lims[g%nl])
+			}
+			close(gate)
+			wg.Wait()
+			e := srv.evals.Load() - e0
+			calls := int64(G * per)
+			m.Count("sustained-race.allowN", calls)
+			if slow.Load() > 0 || c08Misrouted(key) || e > calls {
+				// a stalled call may have been repeated or given up by the client: not judged
+				m.Count("sustained-race.abandoned", 1)
+				ok = false
+				break
+			}
+			offRedis += calls - e
+			totalGrant += granted.Load()
+			totalDeny += denied.Load()
+			if granted.Load() > level {
+				m.Violate("C08:token-race:sustained-over-admission", desc,
+					"round %d: %d concurrent AllowN(n=1) calls in one caller second were granted %d tokens, the bucket held %d (rate %d, burst %d); %d of the calls were answered without a script execution although the server is up and was never down; %d denials before this round",
+					round, calls, granted.Load(), level, rate, burst, calls-e, totalDeny-denied.Load())
+				ok = false
+				break
+			}
+			if e == calls && granted.Load() < level && denied.Load() > 0 {
+				m.Violate("C08:token-race:sustained-denied-with-tokens-left", desc, "round %d: %d calls all answered by Redis, %d granted although the bucket held %d", round, calls, granted.Load(), level)
+				ok = false
+				break
+			}
+			level -= granted.Load()
+		}
+		srv.mr.Close()
+		if ok {
+			m.Count("sustained-race.answered-without-script", offRedis)
+			m.Count("sustained-race.grant", totalGrant)
+			m.Count("sustained-race.deny", totalDeny)
+			m.Case(vk.Digest(rate, burst, nl, per, totalGrant, totalDeny), totalDeny >= 100)
+			if m.WantSample() {
+				m.Sample(map[string]any{"case": i, "rate": rate, "burst": burst, "limiters_on_one_key": nl, "goroutines": G, "calls_each_per_round": per, "rounds": 3, "granted": totalGrant, "denied": totalDeny})
+			}
+		}
+	}
 }
 
 // ---------------------------------------------------------------------------
